@@ -156,6 +156,44 @@ def driver(mode, text):
 
 
 # ----------------------------------------------------------------------------------------------
+# translator self-test on the fixtures (corpus/C19/fixtures)
+# ----------------------------------------------------------------------------------------------
+
+FIXTURES = os.path.join(core.ROOT, "corpus", PROP, "fixtures")
+
+
+def translator_selftest(ctx):
+    """The extractor must translate the fixture bodies exactly as recorded (expected.ir), every `Good*` fixture must
+    conform in all scenarios and every `Bad*` fixture must fail at least one (judged by the compiled driver)."""
+    binary, log = core.build_harness("extract19")
+    if binary is None:
+        return "extract19 does not build: " + log[-500:]
+    out = os.path.join(core.BUILD, "c19-fixtures")
+    os.makedirs(out, exist_ok=True)
+    rc, so, se = core.sh([binary, FIXTURES, os.path.join(out, "F.lean"), os.path.join(out, "f.ir")], env=core.goenv(), timeout=120)
+    if rc != 0:
+        return "extract19 failed on the fixtures: " + (so + se)[-500:]
+    got = [l.rstrip("\n") for l in open(os.path.join(out, "f.ir")) if not l.startswith("#") and l.strip()]
+    want = [l.rstrip("\n") for l in open(os.path.join(FIXTURES, "expected.ir")) if l.strip()]
+    if got != want:
+        diff = [f"want {w!r} got {g!r}" for w, g in zip(want + [None] * len(got), got + [None] * len(want)) if w != g][:5]
+        return "translator output on the fixtures changed: " + "; ".join(diff)
+    rows = [l.partition(" ")[::2] for l in got]
+    ops = [f"conf {k} {b} {h} => {ir}" for k, ir in rows for b, h in SCENARIOS]
+    judged = driver("oracle", "case fixtures\n" + "\n".join(ops) + "\n")[1:]
+    verdict = {}
+    for i, (k, _) in enumerate(rows):
+        fn = k.split(":")[1].split(".")[0 if not k.split(":")[1].startswith("wrapper") else 1]
+        oks = [core.split_res(l)[1] == "ok" for l in judged[6 * i:6 * i + 6]]
+        verdict.setdefault(fn, []).append(all(oks))
+    wrong = [fn for fn, v in verdict.items() if (fn.startswith("Bad") and all(v)) or (not fn.startswith("Bad") and not all(v))]
+    ctx.cov["translator_fixtures"] = {"functions": len(verdict), "programs": len(rows), "pairs_judged": len(ops)}
+    if wrong:
+        return "fixture verdicts wrong for: " + ", ".join(wrong)
+    return None
+
+
+# ----------------------------------------------------------------------------------------------
 # the check
 # ----------------------------------------------------------------------------------------------
 
@@ -179,6 +217,10 @@ def run(ctx):
         ctx.violation("lean-build.txt", "the Lean driver does not build:\n" + problem, no_input=True)
         return finish(ctx)
 
+    st = translator_selftest(ctx)
+    if st is not None:
+        ctx.violation("translator-selftest.txt", "the translator no longer handles its fixtures (corpus/C19/fixtures) as recorded, so what it says about "
+                      "pkg/adapters cannot be relied on:\n" + st + "\n", no_input=True)
     rows, notes = read_table()
     known = {e["key"]: e for e in core.load_known(PROP) if e.get("kind") == "known"}
 
